@@ -121,6 +121,9 @@ theorem layout_standin_delivered (t : Ty) (x : Val) (out : Ty) (hne : t ≠ out)
   simp only [h.2]
   simp [deliver1, hsz, directlyAssignable_self]
 
+example : tS1b ≠ tS1 ∧ LayoutEq tS1b tS1 ∧ tS1.size ≠ 0 ∧ tS1.size = 16 := by
+  refine ⟨by decide, by decide, by decide, by decide⟩
+
 /-! ## clause 4 — a value whose size differs from the declared type is rejected, not reinterpreted -/
 
 theorem size_mismatch_rejected (t : Ty) (x : Val) (out : Ty) (hs : t.size ≠ out.size) (hk : out.kind ≠ .iface) :
@@ -273,6 +276,8 @@ theorem roundtrip_nil (out : Ty) (hk : out.kind = .iface ∨ out.kind = .ptr) :
   rcases hk with h | h
   · simp [zeroRV, zeroVal_iface out h, h, Val.kindOK]
   · simp [zeroRV, zeroVal_ptrlike out (Or.inl h), h, Val.kindOK]
+
+example : (Ty.ptr tS1).kind = .ptr ∧ tError.kind = .iface := by decide
 
 /-- round trip, boxed: an implementing value comes back with its own dynamic type and payload -/
 theorem roundtrip_boxed (t : Ty) (x : Val) (out : Ty) (hk : out.kind = .iface)
